@@ -157,4 +157,12 @@ CHECKS['C07'] = dict(
          'variants of included files (diamonds, same file twice, self/a<->b/back-to-main cycles, missing file, sub-directory relative paths, phase changes inside included files): spliced '
          'sequences, line numbers and inclusion chains; 8 CLI error reports must name file, line, text and the including chain in order.',
     note='Instruction identity = the symbol a `def string` defines; the same-line description case accepts either reading of the element source.')
+CHECKS['C09'] = dict(
+    level='exploration',
+    technique='denotation-first bounded-exhaustive enumeration of quoted/concatenated strings x follower x context, here-documents, text-until-end-of-line and unterminated quotes through the real CLI; denotation known by construction',
+    text='~1 400 strings of 1..3 adjacent fragments (naked / soft / hard x a 17..19-element content family incl. #, backslash, quotes, references, ill-formed references, reserved and option-like words) '
+         'x 5 followers x 3 contexts (program argument vector, file contents, list elements), every soft/hard splitting of 3 fixed strings, 9 text-until-end-of-line forms, here-documents with 3 markers x '
+         'all bodies of <=3 lines over 8 marker/header/comment-like line kinds x {terminated, terminator last without newline, missing}, unterminated quotes at every position: the argv / file contents '
+         'observed at the process seam must equal the denotation; syntax errors must name the containing instruction.',
+    note='Found and repaired KF-C09-HASH (fix: commit in /repo); KF-C09-QUOTE (quoting type of a mixed token decided by its first character) is a recorded known finding matched by predicate + defect model.')
 NOT_APPLICABLE = {}
